@@ -318,8 +318,7 @@ def rule_r6(ctx):
         ctx.r.violation(rid, key_of(f, None, "cl-te-no-close"), "Content-Length + Transfer-Encoding does not set the close verdict", f.loc(n.ast))
 
 
-def rule_r7(ctx):
-    rid = "C01.R7"
+def rule_r7(ctx, rid="C01.R7"):
     ctx.r.rule(rid, "the parser's close verdict is live: it is read by the function that decides the response's persistence")
     p = ctx.p
     f = p.func("task.Task.build_response_header")
@@ -481,7 +480,16 @@ def rule_r14(ctx):
     c02.rule_r4(ctx, rid="C01.R14")
 
 
-RULES = [rule_r1, rule_r2, rule_r3, rule_r4, rule_r5, rule_r6, rule_r7, rule_r8, rule_r9, rule_r10, rule_r11, rule_r12, rule_r13, rule_r14]
+def rule_r15(ctx):
+    """Shared with C11.R1/R2: 'refused ... and the connection is closed' - the worker's close decision (flag, closing of the
+    queued requests, queue reset) is one requests_lock region and received() tests the flags inside that lock, so bytes
+    behind a refused or must-close message are never parsed."""
+    from . import c11
+    c11.rule_r1(ctx, rid="C01.R15")
+    c11.rule_r2(ctx, rid="C01.R15")
+
+
+RULES = [rule_r1, rule_r2, rule_r3, rule_r4, rule_r5, rule_r6, rule_r7, rule_r8, rule_r9, rule_r10, rule_r11, rule_r12, rule_r13, rule_r14, rule_r15]
 
 from ..selftest import M, T, V  # noqa: E402
 
